@@ -563,6 +563,23 @@ class PathResult:
         self.pc_model = None
 
 
+def _default_value(name, lo, hi):
+    """Replay value of a variable the solver left unconstrained and the harness gave no default for: deterministic, distinct
+    per name, well inside the declared range (never the degenerate 0 that hides permutations and sign errors)."""
+    import zlib
+    frac = 0.15 + 0.7 * ((zlib.crc32(name.encode()) % 9973) / 9973.0)
+    if lo is not None and hi is not None:
+        span = min(float(hi) - float(lo), 40.0)
+        mid = min(max(0.0, float(lo)), float(hi)) if float(lo) <= 0.0 <= float(hi) else float(lo)
+        v = mid + frac * span if mid + span <= float(hi) else float(lo) + frac * (float(hi) - float(lo))
+        return round(v, 4)
+    if lo is not None:
+        return round(float(lo) + 0.5 + frac, 4)
+    if hi is not None:
+        return round(float(hi) - 0.5 - frac, 4)
+    return round(0.25 + frac, 4)
+
+
 class Ctx:
     """Execution context of one path (symbolic) or one replay (concrete)."""
 
@@ -600,9 +617,11 @@ class Ctx:
             self.checked = []
 
     # -- inputs -------------------------------------------------------------------------
-    def real(self, name, lo=None, hi=None, nonzero=False, default=0.0):
+    def real(self, name, lo=None, hi=None, nonzero=False, default=None):
         if self.mode == "conc":
-            v = self.model.get(name, default)
+            v = self.model.get(name)
+            if v is None:
+                v = default if default is not None else _default_value(name, lo, hi)
             return float(v)
         if name in self.vars:
             raise RuntimeError(f"duplicate symbolic name {name}")
@@ -1039,6 +1058,10 @@ class Ctx:
     def _extract_model(self, m):
         out = {}
         for name, v in self.vars.items():
+            if m.get_interp(v) is None:
+                # the solver did not need this variable: the replay keeps the harness's own default for it (distinct,
+                # non-degenerate values) instead of z3's completion to 0
+                continue
             val = m.eval(v, model_completion=True)
             out[name] = _model_value(val)
         return out
